@@ -611,10 +611,15 @@ def handle_failure(ctx, stream, np, ops, r, ofail, label):
     site = getattr(stream, 'site', None)
     log('[%s] stream %s %s: %s at op %s' % (ctx.prop, stream.name, label, status, r['first_diff']))
 
+    # failures tagged with a known-finding site (third tuple element) must never mask an untagged one: when the
+    # original batch has an untagged oracle failure the shrinker has to keep an untagged failure
+    has_untagged = any(len(f) < 3 for f in (ofail or []))
+
     def fails(cand):
         rr = compare(ctx, stream, cand, np)
         if status == 'ok':  # oracle-only failure
-            return bool(oracle_failures(stream, cand, rr['impl']))
+            ofs = oracle_failures(stream, cand, rr['impl'])
+            return any(len(f) < 3 for f in ofs) if has_untagged else bool(ofs)
         return rr['status'] == status
 
     small = shrink(ctx, stream, ops, np, fails) if status != 'model-crash' else ops
@@ -632,7 +637,9 @@ def handle_failure(ctx, stream, np, ops, r, ofail, label):
             'oracle_failures': of[:10], 'harness': getattr(stream.harness, '__name__', stream.harness),
             'driver': stream.driver}
     # an oracle failure may carry a third element: a stable `site` id used by known_findings.json
-    site = of[0][2] if of and len(of[0]) > 2 else getattr(stream, 'site', None)
+    # (only when EVERY failure of the minimised case carries the same site is it reported as that known finding)
+    of = sorted(of, key=lambda f: len(f) > 2)   # untagged first: the verdict quotes of[0]
+    site = of[0][2] if of and all(len(f) > 2 and f[2] == of[0][2] for f in of) else getattr(stream, 'site', None)
     if rr['status'] == 'impl-crash':
         # a crash / sanitizer abort / timeout of the real code on a generated input is a concrete failing input
         info['verdict'] = 'implementation aborted (rc=%s) on this input' % rr['rc']
